@@ -1,42 +1,7 @@
 //@unit c11_lex props=C11 widths=u32
 //@use prelude/head.rs
 
-// ---- sub-slices of the source text, tracked by offset (assumed model of &str slicing) ----
-// A `Str` is a slice of the .l source: `off` is where it starts in the text the parser was
-// given, `len` its length in bytes.  Slicing panics when out of range (char-boundary
-// conditions are the business of C12 and are not modelled here).
-pub uninterp spec fn src_at(off: int) -> char;   // the character that starts at byte `off` of the source
-#[derive(Clone, Copy)] pub struct Str { pub off: usize, pub len: usize }
-#[verifier::external_body] #[derive(Clone, Copy)] pub struct Lit { _x: usize }
-#[verifier::external_body] pub fn lit(s: &'static str, n: usize) -> (r: Lit) { unimplemented!() }
-#[verifier::external_body] pub fn lit2() -> (r: Lit) { unimplemented!() }
-pub struct StrBuf { pub off: usize, pub len: usize }        // an owned copy; remembers what it copied
-impl Str {
-    pub fn len(&self) -> (r: usize) ensures r == self.len { self.len }
-    // `s[a..]`
-    pub fn from(&self, a: usize) -> (r: Str)
-        requires a <= self.len, self.off + self.len <= usize::MAX, // OBLG: C11.slice_start_in_range
-        ensures r.off == self.off + a, r.len == self.len - a
-    { Str { off: self.off + a, len: self.len - a } }
-    // `s[a..b]`
-    pub fn sl(&self, a: usize, b: usize) -> (r: Str)
-        requires a <= b, b <= self.len, self.off + self.len <= usize::MAX, // OBLG: C11.slice_range_in_range
-        ensures r.off == self.off + a, r.len == b - a
-    { Str { off: self.off + a, len: b - a } }
-    // (c is one of the ASCII characters < > ' " here, one byte each)
-    #[verifier::external_body] pub fn starts_with(&self, c: char) -> (r: bool) ensures r ==> self.len >= 1 && src_at(self.off as int) == c { unimplemented!() }
-    #[verifier::external_body] pub fn ends_with(&self, c: char) -> (r: bool) ensures r ==> self.len >= 1 && src_at(self.off + self.len - 1) == c { unimplemented!() }
-    // `s.find(c)`: offset of the first occurrence, relative to s
-    #[verifier::external_body] pub fn find(&self, c: char) -> (r: Option<usize>) ensures r matches Some(j) ==> j < self.len && src_at(self.off + j) == c { unimplemented!() }
-    #[verifier::external_body] pub fn eq_lit(&self, l: Lit) -> (r: bool) { unimplemented!() }
-    pub fn to_string(&self) -> (r: StrBuf) ensures r.off == self.off, r.len == self.len { StrBuf { off: self.off, len: self.len } }
-}
-#[derive(Clone, Copy)] pub struct Span { pub st: usize, pub en: usize }
-impl Span { pub fn new(start: usize, end: usize) -> (r: Span) requires start <= end ensures r.st == start, r.en == end { Span { st: start, en: end } } } // OBLG: C11.span_new_start_le_end
-#[derive(Clone, Copy)] pub enum StartStateOperation { ReplaceStack, Push, Pop }
-pub struct StartState { pub id: usize }
-pub enum LexErrorKind { MissingSpace, InvalidStartState, InvalidName }
-pub struct LexBuildError { pub kind: LexErrorKind, pub spans: Vec<Span> }
+//@use prelude/strs.rs
 pub struct LexParser { pub slen: usize }
 impl LexParser {
     pub fn mk_error(&self, kind: LexErrorKind, off: usize) -> (r: LexBuildError) { LexBuildError { kind, spans: vec![Span::new(off, off)] } }
@@ -119,4 +84,5 @@ fn new_with_options(s: Str, lex_flags: LexFlags) -> (r: Result<ParsedLex, Vec<Le
     //@end
     //@endbody
 }
+
 //@use prelude/tail.rs
